@@ -429,6 +429,25 @@ def check_hd(ctx, case):
             raise Discrepancy('export.xkey.default', 'wif() = %s is neither the extended private nor public key of the '
                               'object' % dflt, case)
 
+    if orig_private:
+        # the plain WIF of an extended private key, and the documented 64-byte key||chain import
+        try:
+            wk = k0.wif_key()
+        except Exception as e:
+            raise Discrepancy('export.xkey.raises', 'wif_key() raised %r' % e, case)
+        if wk != address.wif(x.secret, net, True):
+            raise Discrepancy('export.xkey.wif_key', 'wif_key() = %s, reference %s' % (wk, address.wif(x.secret, net, True)),
+                              case)
+        blob = x.secret.to_bytes(32, 'big') + x.chain
+        try:
+            imp = K.HDKey(blob, network=net)
+            got = (imp.is_private, imp.secret, imp.chain, imp.network.name, imp.public_byte)
+        except Exception as e:
+            raise Discrepancy('import.xkey.raises', 'HDKey(<32-byte key || 32-byte chain>=%s) raised %r' % (blob.hex(), e),
+                              case)
+        if got != (True, x.secret, x.chain, net, x.pub):
+            raise Discrepancy('import.xkey.key_chain_bytes', 'HDKey(%s, network=%r) gives %r' % (blob.hex(), net, got), case)
+
     # ---- import + detection -------------------------------------------------------------------------------------
     for spec in case['imports']:
         prv = spec['string'] == 'prv'
@@ -472,6 +491,8 @@ DISPATCH = {'key': check_key, 'hd': check_hd, 'bip38fmt': check_bip38fmt}
 
 
 def replay(ctx, case):
+    if 'probe' in case and 'kind' not in case:          # replay file written for a reproducing probe
+        case = [c for fid, c, _w in _probe_cases() if fid == case['probe']][0]
     DISPATCH[case['kind']](ctx, case)
 
 
@@ -708,5 +729,5 @@ def run(ctx):
         ctx.klass('bip38fmt')
         check_bip38fmt(ctx, case)
     ctx.run_given('bip38fmt', bip38_strategy(ctx), prop_b38, ctx.scale(20, 300))
-    ctx.run_given('key', key_strategy(ctx), prop_key(ctx), ctx.scale(120, 2400))
-    ctx.run_given('hd', hd_strategy(ctx), prop_hd(ctx), ctx.scale(160, 3000))
+    ctx.run_given('key', key_strategy(ctx), prop_key(ctx), ctx.scale(200, 2400))
+    ctx.run_given('hd', hd_strategy(ctx), prop_hd(ctx), ctx.scale(250, 3000))
